@@ -64,7 +64,8 @@ Init ==
   /\ fst = [j \in Jobs |-> "new"] /\ stage = [j \in Jobs |-> "none"]
   /\ calls = 0 /\ snap = <<>> /\ pos = 1 /\ seen = [j \in Jobs |-> 0]
   /\ wdl = -1 /\ edl = [j \in Jobs |-> -1] /\ cdl = -1 /\ now = 0
-  /\ obs = ObsInit /\ viol = "ok" /\ hist = <<>> /\ actor = <<"-", 0>>
+  /\ obs = ObsNext(ObsInit, Ev("Cfg", "-", "main", 0, -1, -1, -1, -1, -1, CancelFn, <<>>))
+  /\ viol = "ok" /\ hist = <<>> /\ actor = <<"-", 0>>
 
 SetEvent == evt' = TRUE /\ woken' = (woken \/ pc[LOOP] = "l_blocked")
 ResId(j) == 100 + j
